@@ -10,6 +10,7 @@ CONSTANTS
   MaxBatch = 0
   BatchVecs = {}
   FConsolidateTombstones = FALSE
+  SkipRejected = FALSE
   FBufferBlind = FALSE
 INVARIANTS GetOK IndexOK
 CONSTRAINT HighWater
